@@ -452,7 +452,7 @@ impl Check for SCheck {
         )
     }
     fn rule(&self) -> String {
-        format!("{} | history generator: ordinary runs hold <= 12 resting orders and <= 40 operations; about 1 run in 32 is a big book (17-260 orders pre-loaded), 1 in 32 a long history (150-1000 operations on 2-5 orders, half of them with a row of 33-1030 orders added and cancelled at once, 1 in 800 of those a 66 000-pair marathon of add+cancel or add+match); ids are small integers, random bits or a corner pool (nil, all ones, equal low / high halves, the same bits as UUID and as ULID); the taker id is sometimes a resting maker's; level price from {{0, 1, 2, 3, 7, 100, 10^4, 2^32}}", self.rule)
+        format!("{} | history generator: ordinary runs hold <= 12 resting orders and <= 40 operations; about 1 run in 32 is a big book (17-260 orders pre-loaded), 1 in 32 a long history (150-1000 operations on 2-5 orders, half of them with a row of 33-1030 orders added and cancelled at once, 1 in 800 of those a 66 000-pair marathon of add+cancel or add+match); ids are small integers, random bits or a corner pool (nil, all ones, equal low / high halves, the same bits as UUID and as ULID); the taker id is sometimes a resting maker's; level price from {{0, 1, 2, 3, 7, 100, 10^4, 2^32}}; in a third of the runs the caller keeps every handle it is given (the Arc from add_order, listings, snapshots) alive to the end; a run is cut short if more than 2000 orders rest at once (never on a correct tree)", self.rule)
     }
     fn assumptions(&self) -> Vec<String> {
         vec![
@@ -762,7 +762,7 @@ pub fn make(prop: &str) -> Option<SCheck> {
             twin: true,
             quick: 1_500_000,
             thorough: 30_000_000,
-            rule: "engine S histories mixing all five update kinds on present/absent ids, equal/other prices, all types, after fills and replenishments; before/after relations on listing and return value; twin run (same history with read-only calls removed) must give identical responses and final state; non-trivial = a successful cancel/move/amend in a history that also had a partial fill or replenishment",
+            rule: "engine S histories mixing all five update kinds on present/absent ids, equal/other prices, all types, orders whose own price field differs from the level's, after fills and replenishments; before/after relations on listing and return value; twin run (same history with read-only calls removed) must give identical responses and final state; non-trivial = a successful cancel/move/amend in a history that also had a partial fill or replenishment",
         },
         "C10" => SCheck {
             prop: "C10",
